@@ -5,3 +5,4 @@ import Props.C04
 import Props.C16
 import Props.C20
 import Props.C05
+import Props.C07
